@@ -32,6 +32,7 @@ POOL = [
     (['x + 1  # xdoctest: +ELLIPSIS'], 'inline'),
     (['w = (1 +', '     2)  # xdoctest: +SKIP'], 'inline'),        # the directive on the continuation line
     (['z = (1 +  # xdoctest: +SKIP', '     2)'], 'inline'),
+    (["'abc'  # xdoctest: +SKIP"], 'inline'),                       # a statement made of a string literal only is still code
 ]
 
 
